@@ -77,6 +77,20 @@ def _tdiv(a, b):
     return q if (a < 0) == (b < 0) else -q
 
 
+def is_const(e):
+    return e[0] == "c" or (e[0] == "neg" and is_const(e[1])) or (e[0] == "bin" and e[1] != "/" and is_const(e[2]) and is_const(e[3]))
+
+
+def is_constx(e):
+    if e[0] in ("c", "cd"):
+        return True
+    if e[0] in ("neg", "not"):
+        return is_constx(e[1])
+    if e[0] in ("bin", "cmp"):
+        return is_constx(e[2]) and is_constx(e[3])
+    return e[0] == "cast" and is_constx(e[2])
+
+
 class Sem(object):
     def __init__(self, prog, tlc, max_loop):
         self.p = prog
@@ -116,6 +130,8 @@ class Sem(object):
             if abs(v) > QCAP // 4:
                 raise Prune("beyond-tlc")
             return 4 * v
+        if Fraction(float(v)) != v:
+            raise Prune("nondyadic")          # the C conversion int -> double rounds: not decided
         return Fraction(v)
 
     def bin(self, op, l, r):
@@ -241,7 +257,7 @@ class Sem(object):
     def eval(self, e, env, types):
         tag = e[0]
         if tag == "c":
-            return ("long", e[1])
+            return ("int" if -(1 << 31) <= e[1] < (1 << 31) else "long", e[1])
         if tag == "cd":
             return ("double", e[1] if self.tlc else Fraction(e[1], 4))
         if tag == "v":
@@ -257,6 +273,8 @@ class Sem(object):
         if tag == "bin":
             l = self.eval(e[2], env, types)
             r = self.eval(e[3], env, types)
+            if e[1] in ("/", "//", "%") and e[3][0] == "cast" and is_constx(e[3][2]) and r[1] == 0:
+                self.flags.add("zero_divisor_cast_of_const")
             return self.bin(e[1], l, r)
         if tag == "cmp":
             l = self.eval(e[2], env, types)
@@ -267,7 +285,10 @@ class Sem(object):
             r = self.eval(e[2], env, types)
             return self.cdivmod(tag, l, r)
         if tag == "cast":
-            return self.cast(e[1], self.eval(e[2], env, types))
+            src = self.eval(e[2], env, types)
+            if e[1] == "bint" and kind(src[0]) == "i" and is_const(e[2]):
+                self.flags.add("bint_cast_of_int_const")
+            return self.cast(e[1], src)
         if tag == "call":
             h = self.p["helper"]
             l = self.eval(e[1], env, types)
